@@ -41,6 +41,10 @@ EXHAUSTIVE_SUBSPACES = {
 CONFIGS = ['', 'clean_qq', 'qq_depth.3', 'qq_depth_min.1,break_halves',
            'qq_depth_max.2']
 COMPACT = {'sym', 'slash', 'bare', 'frac', 'lower-slash'}
+# Spellings that END in a digit / fraction symbol: a compact spelling may
+# follow them directly (no joiner).
+ENDS_IN_DIGIT = COMPACT | {'bare-sp', 'slash-sp', 'slash-sp2', 'frac-sp',
+                           'dot-frac', 'word-frac', 'word-sym', 'abbr-frac'}
 JOINERS = ['', ' ', ' of ', ' of the ']
 
 
@@ -56,7 +60,7 @@ def plan(tier, seed):
 def render(chain, spellings, joiners):
     out = spellings[0][0]
     for (txt, tag), (ptxt, ptag), j in zip(spellings[1:], spellings, joiners):
-        if j == '' and not (ptag in COMPACT and tag in COMPACT):
+        if j == '' and not (ptag in ENDS_IN_DIGIT and tag in COMPACT):
             j = ' '
         out += j + txt
     return out
@@ -126,20 +130,38 @@ BARE_CASES = [
 
 
 def check_bare(text, exp_plain, exp_clean, ctx, rep, pytrs):
-    for cfg, exp in (('', exp_plain), ('clean_qq', exp_clean)):
-        case = {'bare': True, 'text': text, 'cfg': cfg}
+    # clean_qq off / on, each reached through the config string, through the
+    # parse() keyword, and through a keyword contradicting the config.
+    for cfg, kw, exp in (('', None, exp_plain), ('clean_qq', None, exp_clean),
+                         ('', True, exp_clean), ('', False, exp_plain),
+                         ('clean_qq', False, exp_plain),
+                         ('clean_qq.False', True, exp_clean)):
+        case = {'bare': True, 'text': text, 'cfg': cfg, 'kw': kw}
         rep.set_case(case)
-        ctx.case([text, cfg], True, shape=f"bare|{cfg or 'default'}",
-                 sample={'text': text, 'config': cfg, 'expected_whole': exp})
+        ctx.case([text, cfg, kw], True,
+                 shape=f"bare|{cfg or 'default'}|kw={kw}",
+                 sample={'text': text, 'config': cfg, 'clean_qq_keyword': kw,
+                         'expected_whole': exp})
         ctx.hit('bare-quarter')
         with ctx.guard(case):
-            t = pytrs.Tract(text, parse_qq=True, config=cfg or None)
+            if kw is None:
+                t = pytrs.Tract(text, parse_qq=True, config=cfg or None)
+            else:
+                t = pytrs.Tract(text, config=cfg or None)
+                t.parse(clean_qq=kw)
+                pp = t.preprocess(clean_qq=kw)
+                if pp != t.pp_desc:
+                    ctx.violation(
+                        'bare-quarter', case,
+                        f"{text!r} config {cfg!r}: preprocess(clean_qq={kw}) "
+                        f"gives {pp!r} but parse(clean_qq={kw}) committed "
+                        f"{t.pp_desc!r}", dedup=f"pp|{cfg}|{kw}")
             if t.aliquots_whole != exp:
                 ctx.violation(
                     'bare-quarter', case,
-                    f"{text!r} with config {cfg!r}: aliquots "
-                    f"{t.aliquots_whole} (pp {t.pp_desc!r}), expected {exp}",
-                    dedup=f"{cfg}|{bool(exp)}")
+                    f"{text!r} with config {cfg!r} / clean_qq keyword {kw}: "
+                    f"aliquots {t.aliquots_whole} (pp {t.pp_desc!r}), "
+                    f"expected {exp}", dedup=f"{cfg}|{kw}|{bool(exp)}")
 
 
 class ScrubBroken(Exception):
@@ -181,7 +203,8 @@ def run_shard(shard, ctx):
             for s1 in table[c1]:
                 for s2 in table[c2]:
                     for j in JOINERS:
-                        if j == '' and not (s1[1] in COMPACT and s2[1] in COMPACT):
+                        if j == '' and not (s1[1] in ENDS_IN_DIGIT
+                                            and s2[1] in COMPACT):
                             continue
                         k += 1
                         if k % shard['parts'] != shard['part']:
